@@ -25,7 +25,7 @@ func init() {
 			"on error / unknown-dedicated results.",
 		NotCovered: "parsing of identifiers from TLS server names, URL paths, userinfo and EDNS options (string work); " +
 			"the profile database's own lookups (C14); the password-hash comparison itself.",
-		Rules: map[string]string{"C03-R13": "per-element objects built in conversion loops (server groups, devices) take no slice accumulated over earlier elements",
+		Rules: map[string]string{"C03-R14": "auth settings are dropped by the file-cache codec only when absent or disabled; setProfiles stores deleted profiles over the live record (shared rules)", "C03-R13": "per-element objects built in conversion loops (server groups, devices) take no slice accumulated over earlier elements",
 			"C03-R1":  "decision tree of Find equals the reference (channel precedence, deleted profile, authentication table)",
 			"C03-R2":  "supportsDeviceID table",
 			"C03-R3":  "who may construct *agd.DeviceResultOK",
@@ -46,6 +46,15 @@ func init() {
 const dfPkg = "dnssvc/internal/devicefinder."
 
 func runC03(c *an.Ctx) {
+	// ---- R14: authentication settings survive the file cache (nil only when absent or disabled); a deleted profile
+	// replaces the live record (shared with C10-R10 / C14-R8)
+	c.Floor("C03-R14", 2)
+	if n := sharedNilOnlyAbsent(c, "C03-R14", nilWhenDisabled, "profiledb/internal/filecachepb.", "backendpb."); n >= 3 {
+		c.Ok("C03-R14", "optional sub-messages are nil only when absent", token.NoPos, "%d nil returns examined", n)
+	} else {
+		c.Und("C03-R14", "optional sub-messages are nil only when absent", token.NoPos, "only %d nil returns found", n)
+	}
+	c.Borrow("C03-R14", runC14, func(o an.Obligation) bool { return o.Rule == "C14-R8" && strings.Contains(o.Key, "setProfiles") })
 	// ---- R13: what is configured for one server group (its device-ID domains) is not carried over to the next
 	if n := sharedNoLoopCarried(c, "C03-R13", "cmd.", "backendpb.", "profiledb", "dnssvc."); n >= 0 {
 		c.Ok("C03-R13", "per-element objects of the configuration and profile conversions take no cross-iteration accumulator", token.NoPos, "%d loops with a slice accumulator examined", n)
